@@ -207,9 +207,14 @@ fn on_fields(fields: &Fields, has_self: bool, encoding: Encoding) -> syn::Result
         }
         Encoding::Array => {
             let mut steps = Vec::new();
+            // A nil field below the highest non-nil index is still written by the
+            // encoder (its tag followed by its nil encoding), so what it needs beyond
+            // the one byte counted for its slot is remembered in `__nil777` and added
+            // as soon as a later non-nil field shows that the slot is written at all.
             steps.push(quote! {
                 let mut __num777 = 0;
                 let mut __len777 = 0;
+                let mut __nil777 = 0;
             });
             for field in fields.fields() {
                 if field.attrs.skip() {
@@ -226,24 +231,33 @@ fn on_fields(fields: &Fields, has_self: bool, encoding: Encoding) -> syn::Result
                     if field.is_name {
                         steps.push(quote! {
                             if !#is_nil(&self.#ident) {
-                                __len777 += (#n - __num777) + #tag + #cbor_len(&self.#ident, __ctx777);
-                                __num777 = #n + 1
+                                __len777 += (#n - __num777) + __nil777 + #tag + #cbor_len(&self.#ident, __ctx777);
+                                __num777 = #n + 1;
+                                __nil777 = 0
+                            } else {
+                                __nil777 += #tag + #cbor_len(&self.#ident, __ctx777) - 1
                             }
                         })
                     } else {
                         let i = syn::Index::from(field.pos);
                         steps.push(quote! {
                             if !#is_nil(&self.#i) {
-                                __len777 += (#n - __num777) + #tag + #cbor_len(&self.#i, __ctx777);
-                                __num777 = #n + 1
+                                __len777 += (#n - __num777) + __nil777 + #tag + #cbor_len(&self.#i, __ctx777);
+                                __num777 = #n + 1;
+                                __nil777 = 0
+                            } else {
+                                __nil777 += #tag + #cbor_len(&self.#i, __ctx777) - 1
                             }
                         })
                     }
                 } else {
                     steps.push(quote! {
                         if !#is_nil(&#ident) {
-                            __len777 += (#n - __num777) + #tag + #cbor_len(&#ident, __ctx777);
-                            __num777 = #n + 1
+                            __len777 += (#n - __num777) + __nil777 + #tag + #cbor_len(&#ident, __ctx777);
+                            __num777 = #n + 1;
+                            __nil777 = 0
+                        } else {
+                            __nil777 += #tag + #cbor_len(&#ident, __ctx777) - 1
                         }
                     })
                 }
